@@ -14,3 +14,13 @@ Proof.
   intros Hab Hb Hj. unfold be_bytes, of_be, two32 in *. cbn [le_bytes rev app].
   destruct j as [|[|[|[|[|j]]]]]; [| | | | |exfalso; lia]; cbn [firstn skipn app rev of_le]; lia.
 Qed.
+
+(** ...and, both values being below 2^31, stays below 2^31 (its most
+    significant byte is that of one of the two). *)
+Theorem torn_be32_below (a b : Z) (j : nat) :
+  0 <= a <= b -> b < two31 -> (j <= 4)%nat ->
+  of_be (firstn j (be_bytes 4 b) ++ skipn j (be_bytes 4 a)) < two31.
+Proof.
+  intros Hab Hb Hj. unfold be_bytes, of_be, two31 in *. cbn [le_bytes rev app].
+  destruct j as [|[|[|[|[|j]]]]]; [| | | | |exfalso; lia]; cbn [firstn skipn app rev of_le]; lia.
+Qed.
